@@ -37,6 +37,9 @@ def stepLine (st : DState) (line : String) : DState × String :=
   | [.list (.atom "col" :: args)] =>
     let (c', m, sp, dom) := stepCol st.col args
     ({ st with col := c' }, m ++ "\t" ++ sp ++ "\t" ++ (if dom then "1" else "0"))
+  | [.list (.atom "marshal" :: .atom "doc" :: args)] =>
+    let (m, sp, dom) := stepMarshalDoc args
+    (st, m ++ "\t" ++ sp ++ "\t" ++ (if dom then "1" else "0"))
   | [.list (.atom "marshal" :: args)] =>
     let (m, sp, dom) := stepMarshal args
     (st, m ++ "\t" ++ sp ++ "\t" ++ (if dom then "1" else "0"))
